@@ -18,16 +18,26 @@ func subClamp(a, b ProgramCounter) ProgramCounter {
 	return 0
 }
 
+// zetaOf returns the code together with the zero padding that DeBlobProgramCode keeps in the spare
+// capacity of the code slice, i.e. a prefix of ζ = c ⌢ [0, 0, …] (GP A.2). Operand bytes that lie
+// beyond the end of the code therefore read as zero instead of indexing out of range.
+func zetaOf(code []byte) []byte {
+	return code[:cap(code)]
+}
+
 func getRegModIndex(instructionCode []byte, pc ProgramCounter) uint8 {
+	instructionCode = zetaOf(instructionCode)
 	return min(12, (instructionCode[pc+1])%16)
 }
 
 func getRegFloorIndex(instructionCode []byte, pc ProgramCounter) uint8 {
+	instructionCode = zetaOf(instructionCode)
 	return min(12, (instructionCode[pc+1])>>4)
 }
 
 // A.5.2
 func decodeOneImmediate(instructionCode []byte, pc ProgramCounter, skipLength ProgramCounter) (int, error) {
+	instructionCode = zetaOf(instructionCode)
 	lX := min(4, skipLength)
 	immediateData := instructionCode[pc+1 : pc+lX+1]
 	immediate, _, err := ReadUintSignExtended(immediateData, len(immediateData))
@@ -39,11 +49,13 @@ func decodeOneImmediate(instructionCode []byte, pc ProgramCounter, skipLength Pr
 
 // A.5.3
 func decodeOneRegisterAndOneExtendedWidthImmediate(instructionCode []byte, pc ProgramCounter, skipLength ProgramCounter) (int, uint64, error) {
+	instructionCode = zetaOf(instructionCode)
 	panic("not implemented")
 }
 
 // A.5.4
 func decodeTwoImmediates(instructionCode []byte, pc ProgramCounter, skipLength ProgramCounter) (uint64, uint64, error) {
+	instructionCode = zetaOf(instructionCode)
 	lX := ProgramCounter(min(4, uint8(instructionCode[pc+1])%8))
 
 	decodedVX, err := utils.DeserializeFixedLength(instructionCode[pc+2:pc+2+lX], types.U64(lX))
@@ -72,6 +84,7 @@ func decodeTwoImmediates(instructionCode []byte, pc ProgramCounter, skipLength P
 // A.5.5
 // returns vX
 func decodeOneOffset(instructionCode []byte, pc ProgramCounter, skipLength ProgramCounter) (ProgramCounter, error) {
+	instructionCode = zetaOf(instructionCode)
 	lX := min(4, skipLength)
 	offsetData := instructionCode[pc+1 : pc+1+lX]
 	offset, _, err := ReadIntFixed(offsetData, len(offsetData))
@@ -85,6 +98,7 @@ func decodeOneOffset(instructionCode []byte, pc ProgramCounter, skipLength Progr
 // A.5.6
 // returns rA, vX
 func decodeOneRegisterAndOneImmediate(instructionCode []byte, pc ProgramCounter, skipLength ProgramCounter) (uint8, uint64, error) {
+	instructionCode = zetaOf(instructionCode)
 	rA := min(12, instructionCode[pc+1]%16)
 	lX := min(4, subClamp(skipLength, 1))
 
@@ -100,6 +114,7 @@ func decodeOneRegisterAndOneImmediate(instructionCode []byte, pc ProgramCounter,
 
 // A.5.7
 func decodeOneRegisterAndTwoImmediates(instructionCode []byte, pc ProgramCounter, skipLength ProgramCounter) (int8, uint64, uint64, error) {
+	instructionCode = zetaOf(instructionCode)
 	rA := int8(min(12, instructionCode[pc+1]%16))
 	lX := min(4, ProgramCounter(uint8((instructionCode[pc+1]>>4)%8)))
 	pcMargin := pc + 2 + lX
@@ -128,6 +143,7 @@ func decodeOneRegisterAndTwoImmediates(instructionCode []byte, pc ProgramCounter
 // A.5.8
 // returns rA, vX, vY
 func decodeOneRegisterOneImmediateAndOneOffset(instructionCode []byte, pc ProgramCounter, skipLength ProgramCounter) (uint8, uint64, ProgramCounter, error) {
+	instructionCode = zetaOf(instructionCode)
 	rA := min(12, instructionCode[pc+1]%16)
 	lX := ProgramCounter(min(4, (instructionCode[pc+1]>>4)%8))
 	lY := min(4, subClamp(skipLength, lX+1))
@@ -149,6 +165,7 @@ func decodeOneRegisterOneImmediateAndOneOffset(instructionCode []byte, pc Progra
 
 // A.5.9
 func decodeTwoRegisters(instructionCode []byte, pc ProgramCounter) (rD uint8, rA uint8, err error) {
+	instructionCode = zetaOf(instructionCode)
 	if int(pc+1) >= len(instructionCode) {
 		return 0, 0, errors.New("pc out of bound")
 	}
@@ -158,6 +175,7 @@ func decodeTwoRegisters(instructionCode []byte, pc ProgramCounter) (rD uint8, rA
 }
 
 func decodeTwoRegistersAndOneImmediate(instructionCode []byte, pc ProgramCounter, skipLength ProgramCounter) (uint8, uint8, uint64, error) {
+	instructionCode = zetaOf(instructionCode)
 	rA := min(12, instructionCode[pc+1]&15)
 	rB := min(12, instructionCode[pc+1]>>4)
 	lX := min(4, subClamp(skipLength, 1))
@@ -176,6 +194,7 @@ func decodeTwoRegistersAndOneImmediate(instructionCode []byte, pc ProgramCounter
 // A.5.11
 // returns rA, rB, vX
 func decodeTwoRegistersAndOneOffset(instructionCode []byte, pc ProgramCounter, skipLength ProgramCounter) (uint8, uint8, ProgramCounter, error) {
+	instructionCode = zetaOf(instructionCode)
 	rA := min(12, instructionCode[pc+1]%16)
 	rB := min(12, instructionCode[pc+1]>>4)
 	lX := min(4, subClamp(skipLength, 1))
@@ -192,6 +211,7 @@ func decodeTwoRegistersAndOneOffset(instructionCode []byte, pc ProgramCounter, s
 // A.5.12
 // returns rA, rB, vX, vY
 func decodeTwoRegistersAndTwoImmediates(instructionCode []byte, pc ProgramCounter, skipLength ProgramCounter) (uint8, uint8, uint64, uint64, error) {
+	instructionCode = zetaOf(instructionCode)
 	rA := min(12, instructionCode[pc+1]%16)
 	rB := min(12, instructionCode[pc+1]>>4)
 	lX := ProgramCounter(min(4, instructionCode[pc+2]%8))
@@ -214,6 +234,7 @@ func decodeTwoRegistersAndTwoImmediates(instructionCode []byte, pc ProgramCounte
 
 // A.5.13
 func decodeThreeRegisters(instructionCode []byte, pc ProgramCounter) (rA uint8, rB uint8, rD uint8, err error) {
+	instructionCode = zetaOf(instructionCode)
 	if int(pc+2) >= len(instructionCode) {
 		return 0, 0, 0, errors.New("pc out of bound")
 	}
